@@ -335,4 +335,32 @@ theorem tape_create_spelling (w w' : Tape.World) (v v' : Bool) (a a' : Str) (src
     have h2 := C09.refused w' v' a' srcs' hr' (hm ▸ hfit)
     rw [h1.2.1, h2.2.1, h1.1, h2.1]; simp
 
+/-- **C20 (no action alters a source)**: whatever the sources and the files on disk, the only path
+    `--create` / `--add` of the disk archivers ever write is the archive, and they create no directory -/
+theorem disk_update_writes_only_archive (fl : Flavour) (w : Tape.World) (verbose : Bool) (archive : Str) (img : Image) (srcs : List Str) :
+    (∀ p ∈ (performOn fl w verbose archive img srcs).writes, p.1 = archive) ∧ (performOn fl w verbose archive img srcs).mkdirs = [] := by
+  unfold performOn
+  split
+  · exact ⟨by intro p hp; simp at hp, rfl⟩
+  · cases performCore w verbose img srcs with
+    | error e => obtain ⟨e1, o⟩ := e; exact ⟨by intro p hp; simp at hp, rfl⟩
+    | ok st => exact ⟨by intro p hp; simp at hp; rw [hp], rfl⟩
+
+theorem disk_create_writes_only_archive (fl : Flavour) (w : Tape.World) (verbose : Bool) (archive : Str) (srcs : List Str) :
+    (∀ p ∈ (create fl w verbose archive srcs).writes, p.1 = archive) ∧ (create fl w verbose archive srcs).mkdirs = [] :=
+  disk_update_writes_only_archive fl w verbose archive _ srcs
+
+theorem disk_add_writes_only_archive (fl : Flavour) (w : Tape.World) (verbose : Bool) (archive : Str) (raw : Bytes) (srcs : List Str) :
+    (∀ p ∈ (add fl w verbose archive raw srcs).writes, p.1 = archive) ∧ (add fl w verbose archive raw srcs).mkdirs = [] := by
+  unfold add
+  cases load fl raw with
+  | error e => exact ⟨by intro p hp; simp at hp, rfl⟩
+  | ok img => exact disk_update_writes_only_archive fl w verbose archive img srcs
+
+/-- reading a disk archive never writes the archive nor anything outside the destination
+    (list: nothing at all) — for every byte string -/
+theorem disk_read_leaves_archive (fl : Flavour) (verbose : Bool) (raw : Bytes) :
+    (Disk.list fl verbose raw).writes = [] ∧ (Disk.list fl verbose raw).mkdirs = [] :=
+  C18.disk_list_readonly fl verbose raw
+
 end Moto.C20
